@@ -162,6 +162,7 @@ def run(ctx):
       'dead-parameter': 'apply_sustain_control_changes(sequence, sustain_control_number=n) must act on controller n'})
   from rules import C12 as _c12      # a stream merged or searched as if it were sorted (heapq.merge, bisect) must be sorted whatever the storage order
   _c12.assumes_sorted_in(ctx, ('apply_sustain_control_changes',))
+  pedal_state_always_recorded(ctx, fi)
   rank_in_sort_key(ctx, fi)       # location-independent rules first
   note_off_removes_one(ctx, fi)
   threshold_scenarios(ctx, fi, 'THRESHOLD/scenarios')
@@ -200,6 +201,44 @@ def run(ctx):
         if fname == fi.name and (txt is None or norm_text(st) == txt) and any(needle in t for t in tests):
           ok, why = True, 'allow-listed: ' + reason
     ctx.ob('PAIR/end-total', fi, st, ok, why, definite=(not ok and op == 'store' and C11._no_total_near(fi, st, totals)))
+
+
+def pedal_state_always_recorded(ctx, fi, rule='BRANCH/pedal-state-always-recorded'):
+  """Location-independent: a pedal event sets the pedal state of its instrument whatever else is true at that moment - whether notes
+  are sounding, held, or none at all.  In the branch that handles the event, the store of the new state (`flags[...] = True /
+  False`) must not come after a `continue` / `break` of the event loop: a press or release that arrives while the instrument is
+  silent would leave the state as it was."""
+  fn = fi.node
+  pm = U.parents(fn)
+  n = 0
+  for st in U.walk_stmts(fn):
+    if not (isinstance(st, ast.Assign) and len(st.targets) == 1 and isinstance(st.targets[0], ast.Subscript) and isinstance(st.value, ast.Constant) and isinstance(st.value.value, bool)):
+      continue
+    loops = U.enclosing_loops(fn, st)
+    if not loops:
+      continue
+    loop = loops[-1]
+    n += 1
+    # the statements of the enclosing arms that run before the store, innermost arm outwards, up to the loop body
+    before = []
+    child, cur = st, pm.get(id(st))
+    while cur is not None and cur is not loop:
+      for field in ('body', 'orelse'):
+        blk = getattr(cur, field, None)
+        if isinstance(blk, list) and any(child is x for x in blk):
+          before.extend(blk[:next(i for i, x in enumerate(blk) if x is child)])
+      child, cur = cur, pm.get(id(cur))
+    # (statements of the loop body before the dispatch are shared by all event types: not part of this branch)
+    early = [x for b in before for x in ast.walk(b) if isinstance(x, (ast.Continue, ast.Break)) and U.enclosing_loops(fn, x) and U.enclosing_loops(fn, x)[-1] is loop]
+    cons = 'the pedal state store %s is reached by every event of its kind' % norm_text(st)[:50]
+    ctx.ob(rule, fi, early[0] if early else st, not early, 'nothing leaves the branch before the pedal state is stored' if not early else
+           'the %s at line %d%s leaves the branch before `%s`: a pedal event that arrives then does not change the pedal state, and notes that end later on that instrument are held '
+           '(or not held) according to the stale state' % (type(early[0]).__name__.lower(), early[0].lineno,
+                                                          ''.join(' (taken when %s)' % norm_text(t) for t, p in U.path_conditions(fn, early[0])[-1:] if p), norm_text(st)[:50]),
+           construct=cons, definite=True)
+  if n == 0:
+    why = 'cannot classify: no store of a constant pedal state (flags[...] = True / False) found in the event loop'
+    ctx.ob(rule, fi, fn, False, why, construct='pedal state stores are reached by every pedal event', unknown=why)
 
 
 def rank_in_sort_key(ctx, fi):
